@@ -39,6 +39,18 @@ INFO = {
     "another thread stopped inside erase between setting and clearing the delete marker: the reader spins for ever"),
  "c17-abandon-retired-stale-tail": ("C17", "thread_block_list::abandon_retired_nodes links the tail outside the CAS retry loop",
     "two threads exiting at the same time with non-empty retire lists (CAS fails once): nodes cut out / cyclic list / double reclaim"),
+ "r2-c01-geb-orphan-slot": ("C01", "generic_epoch_based::update_global_epoch adopts orphans[(curr_epoch + 2) % 3]: orphaned nodes get one grace period too few",
+    "a thread that lags one epoch behind retires a node and exits / abandons while a thread that entered in the newer epoch still guards it"),
+ "r2-c02-stampit-global-chunks": ("C02", "stamp_it::process_global_nodes pushes only the first remaining chunk back to the global list",
+    ">= 3 threads: the oldest leaver holds its own retired nodes plus a chunk of an exited thread while a third thread is still inside: the second chunk is leaked"),
+ "r2-c04-ramalhete-idx-mask": ("C04", "ramalhete_queue: ticket -> entry mapping with '& (entries_per_node - 1)' instead of '% entries_per_node'",
+    "entries_per_node that is not a power of two (3, 5, 7, 11 ...): values returned twice"),
+ "r2-c06-kirsch-kfifo": ("C06", "kirsch_kfifo_queue rounds k up to the next power of two and indexes slots with a mask: a k'-FIFO with k' > k",
+    "k that is not a power of two (3, 5, 6, 7 ...): a pop returns a value although k or more older values are stored"),
+ "r2-c12-grow-start-offset": ("C12", "growing_circular_array::grow skips the re-indexing unless top < capacity",
+    "growth at top >= 2C with top mod 2C in [1, C-1] (the suite grows at top == 0 only)"),
+ "r2-c13-leftright-read-decltype-auto": ("C13", "left_right::read returns decltype(auto): a functor returning a reference hands out a reference into the instance after the read guard is gone",
+    "a read functor that returns (part of) the instance by reference, copied by the caller while the writer updates that instance"),
  "c18-he-last-era-on-throw": ("C18", "hazard_eras alloc_hazard_era records the new era before the allocation that may throw",
     "all K slots in use, one failed allocation, then another guard request in the same era shares a stale slot (no exception, unprotected)"),
 }
